@@ -87,8 +87,18 @@ fn select_max_index<T, Cmp: Fn(&T, &T) -> std::cmp::Ordering>(
         iter: impl Iterator<Item = &'a T>,
         compare: impl Fn(&'a T, &'a T) -> std::cmp::Ordering,
     ) -> usize {
-        let (index, _) = iter.enumerate().max_by(|a, b| compare(a.1, b.1)).unwrap(); // Ok because we checked tensor is not empty.
-        index
+        // Select the first of several equal maxima, as ONNX specifies when
+        // `select_last_index` is not set. nb. `Iterator::max_by` returns the
+        // last.
+        let mut iter = iter.enumerate();
+        let (mut max_index, mut max_val) = iter.next().unwrap(); // Ok because we checked tensor is not empty.
+        for (index, val) in iter {
+            if compare(val, max_val) == std::cmp::Ordering::Greater {
+                max_index = index;
+                max_val = val;
+            }
+        }
+        max_index
     }
 
     if !input.is_empty() {
